@@ -517,6 +517,19 @@ def pat_rotation_inverse_pair(rng, s):
     return pair
 
 
+def pat_many_commutations(rng, s):
+    """a chain whose reduction needs MORE rewrites than it has operands: a rotation has to commute through several
+    half-wave plates (a rewrite that does not shorten the chain) before the polariser absorbs them"""
+    if not is_stokes(s) or len(leaves_of(s)) < 2:
+        return None
+    k = rng.choice([3, 3, 4, 5])
+    r = mk_qurot(rng, s)
+    hw = [HWPOperator(s) for _ in range(k)]
+    tail = [LinearPolarizerOperator(s)] if rng.random() < 0.7 else []
+    # application order: the plates first, then the rotation, then the polariser (operands: [pol, R, H, …, H])
+    return hw + [r] + tail
+
+
 def pat_lazy_inverse_pair(rng, s):
     x = mk_toeplitz(rng, s, spd=True)
     if x is None:
@@ -706,7 +719,7 @@ def pat_block_rule_identities(rng, s):
     return [BlockDiagonalOperator(rebuild_container(s, firsts)), BlockDiagonalOperator(rebuild_container(s, seconds))]
 
 
-PATTERNS = [pat_inverse_pair, pat_rotation_inverse_pair, pat_lazy_inverse_pair, pat_rotations, pat_rot_hwp, pat_pol_hwp,
+PATTERNS = [pat_inverse_pair, pat_rotation_inverse_pair, pat_many_commutations, pat_lazy_inverse_pair, pat_rotations, pat_rot_hwp, pat_pol_hwp,
             pat_index, pat_index_multi, pat_index_unique, pat_index_repeats, pat_pack, pat_reshape, pat_moveaxis, pat_block_diag_diag, pat_block_col_diag,
             pat_block_single, pat_block_nested, pat_sandwich, pat_identity, pat_scalars, pat_block_rule_identities]
 
@@ -744,7 +757,7 @@ def gen_chain(rng: random.Random, s, length: int, depth: int, p_pattern: float =
 PATTERN_STRUCTURES = {
     'pat_rotations': 'stokes', 'pat_rot_hwp': 'stokes', 'pat_pol_hwp': 'stokes', 'pat_moveaxis': 'mat',
     'pat_sandwich': 'matlist', 'pat_lazy_inverse_pair': 'vec', 'pat_block_diag_diag': 'container',
-    'pat_block_rule_identities': 'matlist', 'pat_index_multi': 'mat', 'pat_rotation_inverse_pair': 'stokes',
+    'pat_block_rule_identities': 'matlist', 'pat_index_multi': 'mat', 'pat_rotation_inverse_pair': 'stokes', 'pat_many_commutations': 'stokes',
 }
 
 
